@@ -10,6 +10,8 @@
 package c15
 
 import (
+	"encoding/json"
+	"fmt"
 	"os"
 	"path/filepath"
 	"sort"
@@ -107,12 +109,29 @@ func TestMain(m *testing.M) {
 	R = ev.New("C15", "exploration")
 	R.Rule("bounded-exhaustive: for each of the 14 config sections the leaf settings are read from the section's JSON struct in the source under test; " +
 		"every setting x every value of its kind's alphabet (plus wrong-typed JSON and cross-kind strings) is applied one at a time to the default JSON, to a sparse JSON holding only that setting, " +
-		"through the CLUSTER_<SECTION>_<FIELD> environment variable, through the whole file via config.Manager, and (Go values) directly on the Config struct; then all pairs of settings within a section. " +
+		"through the CLUSTER_<SECTION>_<FIELD> environment variable, through the whole file via config.Manager, and (Go values) directly on the Config struct; then all pairs of settings within a section (quick tier: the reduced alphabet of the values marked small, JSON and env modes; " +
+		"thorough tier: full alphabets, both bases, plus pairs inside the whole file and triples in sections of <= 8 settings). " +
 		"A case = (section, mode, setting=value[, setting=value]); all cases are distinct by construction; a case is non-trivial when it deviates from the default in at least one setting " +
 		"(base/default round trips are counted as trivial).")
 	R.Assume("envconfig's documented naming (PREFIX_GOFIELDNAME upper-cased, nested structs joined with _) is the meaning of 'values supplied through environment variables'")
 	R.Assume("cluster.id and cluster.private_key are legacy keys (identity moved to identity.json in 0.11.0, CHANGELOG) and are intentionally not persisted by the cluster section")
 	R.Assume("Manager 'source' (remote HTTP configuration) is out of scope: the check works offline")
+
+	if rp := os.Getenv("VERIF_REPLAY"); rp != "" {
+		var art struct {
+			Key string `json:"key"`
+		}
+		b, err := os.ReadFile(rp)
+		if err == nil {
+			err = json.Unmarshal(b, &art)
+		}
+		if err != nil || art.Key == "" {
+			R.Broken("cannot read replay artefact %s: %v", rp, err)
+			os.Exit(R.Finish())
+		}
+		replayKey = art.Key
+		fmt.Printf("REPLAY: re-running the enumeration, reporting only %s\n", replayKey)
+	}
 
 	// The code under test logs every rejected load; keep stderr quiet.
 	logging.SetAllLoggers(logging.LevelFatal)
@@ -183,4 +202,25 @@ func setup() error {
 	R.Note("field_table", tab)
 	R.Note("settings_total", total)
 	return nil
+}
+
+func pairBudget() time.Duration {
+	if ev.Thorough() {
+		return 15 * time.Minute
+	}
+	return 35 * time.Second
+}
+
+func thorough() bool { return ev.Thorough() }
+
+// replayKey: with `vcheck C15 <tier> --replay <artefact>` the enumeration is
+// run again (it is deterministic and short) and only the violation recorded
+// in the artefact is reported.
+var replayKey string
+
+func violate(key string, detail interface{}) {
+	if replayKey != "" && key != replayKey {
+		return
+	}
+	R.Violation(key, detail)
 }
